@@ -139,7 +139,7 @@ func runCase(c *mc.Ctx, k caseT, seed int64, fam string) {
 		}
 		off := 0
 		for _, n := range k.realW {
-			kk, err := conn.Write(wantRef[off : off+n])
+			kk, err := wire.WriteOwned(conn, wantRef[off : off+n])
 			if err != nil || kk != n {
 				realErr = fmt.Errorf("Write(%d) = %d, %v", n, kk, err)
 				return
@@ -414,7 +414,7 @@ func scenarios(cfg *mc.Config, emit func(mc.Scenario)) {
 							})
 							off := 0
 							for _, n := range writes {
-								if _, err := conn.Write(out[off : off+n]); err != nil {
+								if _, err := wire.WriteOwned(conn, out[off : off+n]); err != nil {
 									*errp = err
 									return
 								}
@@ -481,7 +481,7 @@ func twoConnections(cfg *mc.Config, emit func(mc.Scenario)) {
 						e.err = err
 						return
 					}
-					if _, err := conn.Write(e.out); err != nil {
+					if _, err := wire.WriteOwned(conn, e.out); err != nil {
 						e.err = err
 						return
 					}
@@ -645,7 +645,7 @@ func pausedSession(cfg *mc.Config, emit func(mc.Scenario)) {
 						if pauser == "real" {
 							sched.Sleep(pauses[r])
 						}
-						if _, err := conn.Write(outbound[r*blk : (r+1)*blk]); err != nil {
+						if _, err := wire.WriteOwned(conn, outbound[r*blk : (r+1)*blk]); err != nil {
 							realErr, failedAt, failedOp = err, r, "Write"
 							return
 						}
